@@ -21,7 +21,7 @@ from pbt.core import Out, Sub, is_err, sut
 from pbt.gen import terms as gt
 
 RULE = ("histories of 1-12 steps (add, addN over several graphs, remove with all 8 wildcard shapes, remove_graph, update() with INSERT DATA / DELETE DATA / "
-        "DELETE WHERE / DELETE-INSERT-WHERE text, reads: triples (8 shapes), len, membership, contexts, query; commit, rollback) over a default graph and "
+        "DELETE WHERE / DELETE-INSERT-WHERE text, reads: triples (8 shapes), len, membership, contexts, contexts(pattern), query; commit, rollback) over a default graph and "
         "two named graphs; terms drawn per case from IRIs (RFC 3987 shaped) and all literal families incl. quotes, backslashes, newlines, CR, TAB, "
         "non-BMP, language tags, falsy values; 3 x 2 x 2 x 2 x 2 store configurations. Non-trivial = a write queued with autocommit off is followed by a "
         "read or commit, or a literal needs escaping in SPARQL text, or a named graph is involved; distinct by SHA-1 of the case JSON.")
@@ -164,7 +164,12 @@ def run(case):
                 name = model.eff(op[1])
                 named |= name is not None
                 text, fn = update_text(op[2])
-                res = sut(g.update, text)
+                if op[2][0] == "move-bound":
+                    # the object is handed over as initBindings (the store writes it into the text as VALUES)
+                    bound = {"o": T(op[2][3])}
+                    res = sut(lambda: g.update(text, initBindings=bound))
+                else:
+                    res = sut(g.update, text)
                 model.write(lambda st_, name=name, fn=fn: fn(st_, name), auto)
             elif k == "commit":
                 if model.pending:
@@ -174,9 +179,16 @@ def run(case):
             elif k == "rollback":
                 res = sut(store.rollback)
                 model.rollback()
-            elif k in ("triples", "len", "contains", "query", "contexts"):
+            elif k in ("triples", "len", "contains", "query", "contexts", "contexts-of"):
+                if k == "contexts-of" and not cfg["context_aware"]:
+                    continue
                 before_read()
-                if k == "contexts":
+                if k == "contexts-of":
+                    # the named graphs that hold a match of the pattern, each once
+                    pat = tuple(None if x is None else T(x) for x in op[1])
+                    res = sut(lambda: sorted(str(c.identifier) if hasattr(c, "identifier") else str(c) for c in store.contexts(pat)))
+                    expect = sorted(n for n, ts in model.committed.items() if n is not None and any(match(op[1], t) for t in ts))
+                elif k == "contexts":
                     res = sut(lambda: {str(c.identifier) if hasattr(c, "identifier") else str(c) for c in store.contexts()})
                     # graphs that hold triples must be listed; whether an emptied graph still is depends on the endpoint (documented)
                     if not is_err(res):
@@ -274,6 +286,14 @@ def update_text(u):
             hit = {t for t in st_[name] if t[1] == key(T(P))}
             st_[name] = (st_[name] - hit) | {(s, key(T(Q)), o) for s, _, o in hit}
         return f"DELETE {{ ?s {n3(P)} ?o }} INSERT {{ ?s {n3(Q)} ?o }} WHERE {{ ?s {n3(P)} ?o }}", fn
+    if k == "move-bound":
+        # the same with ?o given by initBindings: only the triples with that object move
+        P, Q, O = u[1], u[2], u[3]
+
+        def fn(st_, name):
+            hit = {t for t in st_[name] if t[1] == key(T(P)) and t[2] == key(T(O))}
+            st_[name] = (st_[name] - hit) | {(s, key(T(Q)), o) for s, _, o in hit}
+        return f"DELETE {{ ?s {n3(P)} ?o }} INSERT {{ ?s {n3(Q)} ?o }} WHERE {{ ?s {n3(P)} ?o }}", fn
     raise ValueError(u)
 
 
@@ -300,7 +320,8 @@ def cases(draw, tier):
     upd = st.one_of(st.tuples(st.just("insertdata"), st.lists(triple, min_size=1, max_size=3)).map(list),
                     st.tuples(st.just("deletedata"), st.lists(triple, min_size=1, max_size=2)).map(list),
                     st.tuples(st.just("deletewhere"), pattern()).map(list),
-                    st.tuples(st.just("move"), st.sampled_from(pred), st.sampled_from(pred)).map(list))
+                    st.tuples(st.just("move"), st.sampled_from(pred), st.sampled_from(pred)).map(list),
+                    st.tuples(st.just("move-bound"), st.sampled_from(pred), st.sampled_from(pred), st.sampled_from(obj)).map(list))
     op = st.one_of(
         st.tuples(st.just("add"), gi, triple).map(list), st.tuples(st.just("add"), gi, triple).map(list),
         st.tuples(st.just("addN"), st.lists(st.tuples(gi, triple).map(list), min_size=1, max_size=4)).map(list),
@@ -310,7 +331,7 @@ def cases(draw, tier):
         st.tuples(st.just("triples"), gi, pattern()).map(list), st.tuples(st.just("triples"), gi, triple).map(list),
         st.tuples(st.just("len"), gi).map(list), st.tuples(st.just("contains"), gi, triple).map(list),
         st.tuples(st.just("query"), gi).map(list), st.just(["contexts"]), st.just(["commit"]), st.just(["rollback"]),
-        st.tuples(st.just("add-bnode"), gi).map(list))
+        st.tuples(st.just("add-bnode"), gi).map(list), st.tuples(st.just("contexts-of"), st.one_of(pattern(), triple)).map(list))
     # the same edit queued twice with its inverse in between (order of queued edits matters exactly then)
     def toggle(args):
         g_, t_, start = args
